@@ -18,6 +18,8 @@
  */
 #include "space.h"
 
+#include "verif_trace.h"
+
 #include "add_space_table.h"
 #include "log_rules.h"
 #include "options.h"
@@ -3812,6 +3814,9 @@ void space_text()
             }
          }
          next->SetColumn(column);
+#ifdef UNC_VERIF
+         verif::space(pc, next, static_cast<int>(av), min_sp, prev_column, column);
+#endif
          LOG_FMT(LSPACE, "%s(%d): orig line is %zu, orig col is %zu, pc-Text() '%s', type is %s\n",
                  __func__, __LINE__, pc->GetOrigLine(), pc->GetOrigCol(), pc->Text(), get_token_name(pc->GetType()));
          LOG_FMT(LSPACE, "%s(%d): ",
